@@ -334,6 +334,17 @@ def key_writes(cfg: CFG) -> List[KeyWrite]:
             val = a.value
         if val is None:
             continue
+        if isinstance(val, ast.IfExp):
+            # `return {..} if c else {..}` / `x = {..} if c else y`: each arm's display is written under the arm's condition
+            def arms(e: ast.expr, extra) -> None:
+                if isinstance(e, ast.IfExp):
+                    arms(e.body, extra + [(e.test, True)])
+                    arms(e.orelse, extra + [(e.test, False)])
+                elif isinstance(e, ast.Dict):
+                    for k2, v2 in zip(e.keys, e.values):
+                        if isinstance(k2, ast.Constant) and isinstance(k2.value, str):
+                            out.append(KeyWrite(k2.value, n, v2, tgt_var, extra))
+            arms(val, [])
         if isinstance(val, ast.Dict):
             for k, v in zip(val.keys, val.values):
                 if isinstance(k, ast.Constant) and isinstance(k.value, str):
